@@ -80,6 +80,7 @@ type PathResult struct {
 	Branches  int      // solver-decided branches on this path
 	Notes     []string
 	Sample    string
+	Witness   *Violation // concrete inputs of a passing path (for native differential runs)
 }
 
 const forcedBit = 1 << 30
@@ -142,6 +143,8 @@ type Machine struct {
 	fsLog     []string
 	wgs       map[*Value]*int
 	cardApps  []cardApp
+
+	WantSample func() bool
 }
 
 type loopKey struct {
@@ -575,6 +578,11 @@ func (m *Machine) RunPath(fn *ssa.Function, prefix []int32) (res PathResult, wor
 		}
 		if len(left) > 0 && !m.cfg.allowLeak() {
 			m.failHere("LEAKED-GOROUTINE", strings.Join(left, "; "))
+		}
+		if m.WantSample != nil && m.WantSample() {
+			if r, as := m.model(nil); r == Sat && as != nil {
+				res.Witness = m.mkViolation("SAMPLE", "passing path", as)
+			}
 		}
 	}()
 	res.Steps = m.steps
